@@ -284,14 +284,21 @@ func (obj *Package) Import(pkg *Package, varName string) {
 func (obj *Package) Set(name string, value Object, privates ...bool) (vv *VarVal) {
 	name, value = obj.PreSet(obj, name, value)
 	private := 0 < len(privates) && privates[0]
-	if vv = obj.SetIfHas(name, value, private); vv == nil {
+	for vv = obj.SetIfHas(name, value, private); vv == nil; vv = obj.SetIfHas(name, value, private) {
 		if obj.Locked {
 			PackagePanic(NewScope(), 0, obj, "Package %s is locked thus no new variables can be set.", obj.Name)
 		}
-		vv = &VarVal{Val: value, Pkg: obj, name: name}
+		// Another routine may have added the variable since it was found
+		// missing. If so set that one instead of replacing it.
 		obj.mu.Lock()
-		obj.vars[name] = vv
+		if _, has := obj.vars[name]; !has {
+			vv = &VarVal{Val: value, Pkg: obj, name: name}
+			obj.vars[name] = vv
+		}
 		obj.mu.Unlock()
+		if vv != nil {
+			break
+		}
 	}
 	callSetHooks(vv.Pkg, name)
 
